@@ -8,8 +8,17 @@ namespace {
 
 struct FSpec { Kind k; Pol p; forest* F = nullptr; std::string name; };
 
+// harness-side pointwise check, used only to mark a case suspicious when screening (common.h SCREENING)
+void suspectUnless(const std::vector<Val>& got, const std::vector<Val>& ta, const std::vector<Val>& tb, int op) {
+    for (size_t i = 0; i < got.size(); i++) {
+        bool a = ta[i].n != 0, b = tb[i].n != 0, want = op == 0 ? (a || b) : op == 1 ? (a && b) : op == 2 ? (a && !b) : !a;
+        if ((got[i].n != 0) != want) { markSuspect(); return; }
+    }
+}
+
 int run(const Args& A) {
     libInit();
+    if (A.getl("screen", 0) > 0) { SCREEN().on = true; SCREEN().sampleEvery = A.getl("screen", 0); screenInstallCrashFlush(); }
     long ncases = A.cases > 0 ? A.cases : (A.thorough() ? 4000 : 600);
     for (long c = 0; c < ncases; c++) {
         if (!A.selected(c)) continue;
@@ -70,10 +79,12 @@ int run(const Args& A) {
                         apply(ops[o], a, b, res);
                         emit("op R%d %s A B", o, names[o]);
                         emit("table R%d Fc %s", o, tableStr(tableOf(D, res)).c_str());
+                        if (SCREEN().on) suspectUnless(tableOf(D, res), ta, tb, o);
                         STATS.hit(std::string("op.") + names[o]);
                         if (round == rounds - 1) { keep.push_back(res); keepOps.push_back(std::string("R") + char('0' + o) + " " + names[o] + " A B"); }
                     } catch (error& e) {
                         emit("err R%d %s A B %s", o, names[o], errName(e));
+                        markSuspect();
                         emit("note thrown-at %s:%u", e.getFile(), e.getLine());
                         STATS.hit(std::string("err.") + errName(e));
                     }
@@ -84,10 +95,12 @@ int run(const Args& A) {
                         apply(COMPLEMENT, a, res);
                         emit("op R3 COMPLEMENT A");
                         emit("table R3 Fc %s", tableStr(tableOf(D, res)).c_str());
+                        if (SCREEN().on) suspectUnless(tableOf(D, res), ta, tb, 3);
                         STATS.hit("op.COMPLEMENT");
                         if (round == rounds - 1) { keep.push_back(res); keepOps.push_back("R3 COMPLEMENT A"); }
                     } catch (error& e) {
                         emit("err R3 COMPLEMENT A %s", errName(e));
+                        markSuspect();
                         STATS.hit(std::string("err.") + errName(e));
                     }
                 }
@@ -136,12 +149,17 @@ int run(const Args& A) {
                 emit("table B Fb %s", tableStr(tableOf(D, b)).c_str());
                 emit("unchanged A");
                 emit("unchanged B");
+                if (SCREEN().on && (tableOf(D, a) != ta || tableOf(D, b) != tb)) markSuspect();
             }
         }
         endCase();
         std::set<forest*> seen;
         for (int i = 0; i < 3; i++) if (seen.insert(fs[i].F).second) forest::destroy(fs[i].F);
         D.destroy();
+    }
+    if (SCREEN().on) {
+        emit("note screening kept %ld dropped %ld suspects %ld", SCREEN().kept, SCREEN().dropped, SCREEN().suspects);
+        STATS.hit("screen.kept", SCREEN().kept); STATS.hit("screen.dropped", SCREEN().dropped); STATS.hit("screen.suspects", SCREEN().suspects);
     }
     libCleanup();
     return 0;
